@@ -91,6 +91,7 @@ fn main() { let args: Vec<String> = std::env::args().skip(1).collect(); std::pro
 
 fn run(args: &[String]) -> i32 {
     quiet_panics();
+    if let Some(hx) = arg_val(args, "--replay-hex") { return replay(&unhex(&hx)); }
     let seed = arg_u64(args, "--seed", 1);
     let n = arg_u64(args, "--n", 600) as usize;
     let max_tokens = arg_u64(args, "--max-tokens", 90) as usize;
@@ -145,10 +146,21 @@ fn run(args: &[String]) -> i32 {
         if ast.is_none() { stats.inc("ast_panicked"); }
         if ntok >= 5 { distinct.insert(src.clone()); }
 
+        // diagnostics for classify(): first gap/overlap between consecutive token spans
+        let gap = raw.as_ref().and_then(|v| {
+            let mut prev: (usize, usize) = (0, 0);
+            for e in v { if let Event::Token { span, .. } = e {
+                if span.start() != prev.1 { return Some(format!("{}..{}->{}:{}", prev.0, prev.1, span.start(), hex(&src[prev.0.min(src.len())..span.start().min(src.len()).max(prev.0.min(src.len()))]))); }
+                prev = (span.start(), span.end()); } }
+            if prev.1 != src.len() { return Some(format!("{}..{}->end{}:{}", prev.0, prev.1, src.len(), hex(&src[prev.0.min(src.len())..]))); }
+            None
+        });
+        let own_fail = match &toks { Ok(Some((os, _))) => os.iter().enumerate().filter(|(i, o)| o.at_off != Some(*i) || o.at.iter().any(|a| *a != Some(*i))).count(), _ => 0 };
         let case = format!("mkCase {} {} {} {} {} {} {}", src.len(), coq_events(&raw), coq_events(&cst),
             coq_bool(texts_ok), coq_bool(root_text_ok), toks_coq, ast_coq);
-        let replay = format!("{{\"index\":{},\"stream\":{},\"source_hex\":\"{}\",\"source_lossy\":{},\"tokens\":{}}}",
-            shards.total, json_str(&stream), hex(&src), json_str(&String::from_utf8_lossy(&src)), ntok);
+        let replay = format!("{{\"index\":{},\"stream\":{},\"source_hex\":\"{}\",\"source_lossy\":{},\"tokens\":{},\"parser_panicked\":{},\"cst_stream_panicked\":{},\"ast_panicked\":{},\"gap\":{},\"texts_ok\":{},\"root_text_ok\":{},\"own_lookup_failures\":{}}}",
+            shards.total, json_str(&stream), hex(&src), json_str(&String::from_utf8_lossy(&src)), ntok,
+            raw.is_none(), cst.is_none(), ast.is_none(), match &gap { Some(g) => json_str(g), None => "null".into() }, texts_ok, root_text_ok, own_fail);
         if samples.len() < 3 && ntok >= 20 { samples.push(replay.clone()); }
         shards.push(case, replay);
     }
@@ -156,6 +168,45 @@ fn run(args: &[String]) -> i32 {
     println!("{{\"evaluations\":{},\"distinct_nontrivial\":{},\"shards\":{},\"distribution\":{},\"samples\":[{}]}}",
         shards.total, distinct.len(), shards.shard_count, stats.json(), samples.join(","));
     0
+}
+
+/// replay of one source: what the implementation returns, and the property on it
+fn replay(src: &[u8]) -> i32 {
+    println!("source ({} bytes): {:?}", src.len(), String::from_utf8_lossy(src));
+    let raw = catch(AssertUnwindSafe(|| Parser::new(src).collect::<Vec<Event>>()));
+    let mut bad = vec![];
+    match &raw {
+        Err(e) => bad.push(format!("parser panicked: {e}")),
+        Ok(v) => {
+            let mut prev = 0usize; let mut depth = 0i64;
+            for e in v {
+                match e {
+                    Event::Token { kind, span } => {
+                        println!("  token {:?} {}..{} {:?}", kind, span.start(), span.end(), String::from_utf8_lossy(&src[span.range()]));
+                        if span.start() != prev { bad.push(format!("expected: next token starts at {prev}; actual: it starts at {} (bytes {}..{} are in no token)", span.start(), prev, span.start())); }
+                        prev = span.end();
+                    }
+                    Event::Begin { .. } => depth += 1,
+                    Event::End { .. } => { depth -= 1; if depth < 0 { bad.push("End without Begin".into()); } }
+                    Event::Error { message, span } => println!("  error {}..{} {}", span.start(), span.end(), message),
+                }
+            }
+            if prev != src.len() { bad.push(format!("expected: last token ends at {}; actual: {}", src.len(), prev)); }
+            if depth != 0 { bad.push("unbalanced Begin/End".into()); }
+        }
+    }
+    match observe_tokens(src) {
+        Ok(Some((os, ok))) => {
+            if !ok { bad.push("CST root text differs from the source".into()); }
+            for (i, o) in os.iter().enumerate() {
+                if o.at_off != Some(i) || o.at.iter().any(|a| *a != Some(i)) { bad.push(format!("token {i}: own offset/position lookup returned {:?} {:?}", o.at_off, o.at)); }
+            }
+        }
+        Ok(None) => println!("  (no CST: a token is not valid UTF-8)"),
+        Err(e) => bad.push(format!("CST walk panicked: {e}")),
+    }
+    match ast_spans(src) { Ok(v) => for (a, b) in v { if a > b || b as usize > src.len() { bad.push(format!("AST span {a}..{b} outside the source")); } }, Err(e) => bad.push(format!("AST builder panicked: {e}")) }
+    if bad.is_empty() { println!("property holds on this input"); 0 } else { for b in &bad { println!("VIOLATED: {b}"); } 1 }
 }
 
 /// minimized inputs that exercised something once; they run first
@@ -179,6 +230,9 @@ fn corpus() -> Vec<Vec<u8>> {
         b"rule a {condition: with x = 1, y = 2 : ( x == y ) }",
         b"rule a {condition: 50% of them }",
         b"rule a {condition: not not not true and ( ( ( false ) ) ) }",
+        // known finding: a truncated multi-byte Unicode space loses a byte
+        b"rule a {condition: \xe2\x80true}",
+        b"\xe2\x81",
     ];
     v.into_iter().map(|s| s.to_vec()).collect()
 }
